@@ -413,3 +413,26 @@ def ddmin_list(items):
             seen.add(key)
             yield items[: key[0]] + items[key[1] :]
         chunk //= 2
+
+
+# --------------------------------------------------------------------------- known findings
+_OPEN = None
+
+
+def open_findings() -> set:
+    """Ids of the open entries of /verif/known_findings.json. Worlds use this only to keep a
+    run going past a deviation that has exactly the recorded shape of an open finding (it is
+    counted, and the finding's own replay file is run by the runner with VERIF_IGNORE_KNOWN=1,
+    where the deviation is raised as a violation again)."""
+    global _OPEN
+    if _OPEN is None:
+        _OPEN = set()
+        if not os.environ.get("VERIF_IGNORE_KNOWN"):
+            p = os.path.join(os.path.dirname(os.path.dirname(os.path.abspath(__file__))), "known_findings.json")
+            try:
+                for k in json.load(open(p)).get("findings", []):
+                    if k.get("status") == "open":
+                        _OPEN.add(k["id"])
+            except FileNotFoundError:
+                pass
+    return _OPEN
